@@ -209,5 +209,23 @@ mod native {
             }
         }
         assert!(cases == 144);   // x 2 lengths of the hostile entry each
+        // a torrent listing several files is a multi-file torrent however few of its entries are "real": with a padding entry
+        // (BEP47) next to one real file everything still goes into the torrent's sub-directory.  (A list with a SINGLE entry is
+        // extracted by this client like a single-file torrent, directly into the download directory; not judged here.)
+        for files in [vec![("data.bin".to_string(), 4usize), (".pad/2".to_string(), 2usize)], vec![(".pad/0".to_string(), 1), ("x".to_string(), 5)]] {
+            let base = fresh_dir("c04");
+            let content = vec![1u8, 2, 3, 4, 5, 6];
+            let doc = torrent_doc("NAME", 4, &content, &files, false);
+            if let Ok(m) = Metainfo::from_bencode(&doc) {
+                store_pieces(4, &content);
+                let _ = Extractor::new(m, tx.clone()).extract_files();
+            }
+            std::env::set_current_dir("/").unwrap();
+            let mut out = vec![];
+            files_outside(&base, &base.join("work/dl/NAME"), &mut out);
+            let out: Vec<String> = out.into_iter().filter(|f| !f.ends_with(".piece")).collect();
+            assert!(out.is_empty(), "multi-file torrent NAME with entries {:?}: created outside its sub-directory: {:?}", files, out);
+            let _ = std::fs::remove_dir_all(&base);
+        }
     }
 }
